@@ -200,8 +200,168 @@ def copied_stage_cases(ctx):
                          observed=r[0], expected=exp)
 
 
+_HOST_LOG = []
+
+
+class _HostSrc:
+    def __init__(self, n):
+        self.n, self.i = n, 0
+
+    def __iter__(self):
+        return self
+
+    def __next__(self):
+        if self.i >= self.n:
+            _HOST_LOG.append('X')
+            raise StopIteration
+        self.i += 1
+        _HOST_LOG.append('D%d' % (self.i - 1))
+        return self.i - 1
+
+
+def _host_inner(i, items):
+    for j, it in enumerate(items):
+        _HOST_LOG.append('I%d.%d' % (i, j))
+        yield it
+    _HOST_LOG.append('E%d' % i)
+
+
+_HOST_SHAPES = None
+
+
+def _host_f(x):
+    sh = _HOST_SHAPES[x]
+    if sh[0] == 'plain':
+        return sh[1]
+    return _host_inner(x, sh[1])
+
+
+def _host_reference(shapes, skipNone):
+    """what the property says, spelled out: per element its expansion, in order, None rule per item, everything on demand"""
+    src = _HostSrc(len(shapes))
+    for el in src:
+        sh = shapes[el]
+        items = (sh[1],) if sh[0] == 'plain' else _host_inner(el, sh[1])
+        for it in items:
+            if it is not None or not skipNone:
+                yield it
+
+
+def _host_consume(stream, takes, hop):
+    import threading
+    got = []
+
+    def one():
+        try:
+            v = next(stream)
+            got.append(('v', v, list(_HOST_LOG)))
+        except StopIteration:
+            got.append(('end', None, list(_HOST_LOG)))
+        except BaseException as e:  # noqa
+            got.append(('exc', '%s: %s' % (type(e).__name__, e), list(_HOST_LOG)))
+
+    over = threading.Event()      # the threads stay alive to the end, so each request really comes from a different thread (no identifier is reused)
+
+    def one_and_stay(ready):
+        one()
+        ready.set()
+        over.wait(30)
+
+    for k in range(takes):
+        if hop:
+            ready = threading.Event()
+            t = threading.Thread(target=one_and_stay, args=(ready,), daemon=True)
+            t.start()
+            if not ready.wait(10):
+                got.append(('stuck', None, list(_HOST_LOG)))
+                break
+        else:
+            one()
+        if got[-1][0] != 'v':
+            break
+    over.set()
+    return got
+
+
+def _host_body(shapes, skipNone, takes, hop, use_library):
+    global _HOST_SHAPES
+    _HOST_SHAPES = shapes
+    del _HOST_LOG[:]
+    if use_library:
+        from generatorpipeline import pipeline
+        stream = pipeline(0, skipNone=skipNone)(_host_f)(_HostSrc(len(shapes)))
+    else:
+        stream = _host_reference(shapes, skipNone)
+    return _host_consume(stream, takes, hop)
+
+
+def _host_child(conn, args):
+    try:
+        conn.send(('ok', _host_body(*args)))
+    except BaseException as e:  # noqa
+        conn.send(('error', repr(e)))
+    conn.close()
+
+
+def _host_run(shapes, skipNone, takes, host, hop):
+    """runs in a forked child of the check"""
+    want = _host_body(shapes, skipNone, takes, False, False)
+    if host == 'mp-process':
+        import multiprocessing as mp
+        a, b = mp.Pipe()
+        pr = mp.Process(target=_host_child, args=(b, (shapes, skipNone, takes, hop, True)))
+        pr.start()
+        if not a.poll(30):
+            pr.kill()
+            return dict(want=want, got=[('stuck', None, [])])
+        st, got = a.recv()
+        pr.join(5)
+        if st != 'ok':
+            return dict(want=want, got=[('exc', got, [])])
+    else:
+        got = _host_body(shapes, skipNone, takes, hop, True)
+    return dict(want=want, got=got)
+
+
+def hosted_stream_cases(ctx):
+    """the in-process stream is an ordinary generator: which thread asks for the next item, and which process of the program hosts the stream,
+    changes nothing — same items, and after every hand-over exactly the same draws and inner-iterator steps as the spelled-out expansion"""
+    rng = ctx.rng
+    for host, hop, full in [('main', True, True), ('main', True, False), ('mp-process', False, False), ('mp-process', True, True)]:
+        n = rng.choice([3, 4, 6])
+        shapes = []
+        for i in range(n):
+            r = rng.random()
+            if r < 0.55:
+                shapes.append(('iter', [rng.choice([10 * i + j, None]) if rng.random() < 0.25 else 10 * i + j for j in range(rng.choice([0, 1, 2, 3, 4]))]))
+            else:
+                shapes.append(('plain', rng.choice([None, 100 + i])))
+        if not any(sh[0] == 'iter' and len(sh[1]) >= 2 for sh in shapes):
+            shapes[0] = ('iter', [1, 2, 3])
+        skip = rng.choice([True, False])
+        total = sum((1 if sh[0] == 'plain' else len(sh[1])) for sh in shapes)
+        takes = total + 1 if full else rng.choice([2, 3, total // 2 + 1, total + 1])
+        case = dict(hosted_stream=host, next_calls_from_fresh_threads=hop, shapes=shapes, skipNone=skip, takes=takes)
+        ctx.case(('hosted', host, hop, repr(shapes), skip, takes), True, sample=case)
+        ctx.count('hosted:' + host + ('+threads' if hop else ''))
+        st, r = pipelib.isolated(_host_run, (shapes, skip, takes, host, hop), timeout=60)
+        if st != 'ok':
+            ctx.fail('hosted-stream-fails', 'in-process stream hosted in %s%s: %s %s' % (host, ' with next() from fresh threads' if hop else '', st, str(r)[-300:]), case)
+            continue
+        want, got = r['want'], r['got']
+        for k, (w, g) in enumerate(zip(want, got)):
+            if w != g:
+                ctx.fail('hosted-stream-differs', 'in-process stream hosted in %s%s: request %d gave %r after %s; the expansion spelled out gives %r after %s'
+                         % (host, ' with next() from fresh threads' if hop else '', k, g[:2], g[2][-6:], w[:2], w[2][-6:]), case)
+                break
+        else:
+            if len(want) != len(got):
+                ctx.fail('hosted-stream-differs', 'in-process stream hosted in %s: %d requests answered, the expansion spelled out answers %d' % (host, len(got), len(want)), case)
+
+
 def check(ctx):
     copied_stage_cases(ctx)
+    hosted_stream_cases(ctx)
     for c, r, m in c01.execute(gen_cases(ctx)):
         with ctx.guard(c):
             judge(ctx, c, r, m)
@@ -212,6 +372,9 @@ def check(ctx):
 def replay(ctx, data):
     if 'copied_stage' in data['case']:
         copied_stage_cases(ctx)
+        return
+    if 'hosted_stream' in data['case']:
+        hosted_stream_cases(ctx)
         return
     if 'streams' in data['case']:
         from harness.props import multistream
